@@ -89,7 +89,9 @@ impl<const N: u64> common::Constraint for En<N> {
 impl<const N: u64> enumerated::Constraint for En<N> {
     const NAME: &'static str = "En";
     const VARIANT_COUNT: u64 = N;
-    const STD_VARIANT_COUNT: u64 = N;
+    // an even number of items: the second half are extension items behind the marker
+    const STD_VARIANT_COUNT: u64 = if N % 2 == 0 { N / 2 } else { N };
+    const EXTENSIBLE: bool = N % 2 == 0;
     fn to_choice_index(&self) -> u64 {
         self.0
     }
@@ -414,7 +416,7 @@ fn item_strategy() -> impl Strategy<Value = Item> {
     ]
 }
 
-const RULE: &str = "enumerated: every length in {0..300, 2^k +-2, 2^(7k) +-2, u64::MAX-2..u64::MAX}, every tag class x number 0..30, both booleans, every boolean content octet 0..255, i64/u64 boundary families through write_integer_*/read_integer_* and through BasicWriter/BasicReader with Integer<i8..u64>, Boolean, Enumerated with 1..300 items (every index) - each alone in a buffer; generated (proptest): sequences of 2..8 such items in one buffer read back from one slice. Non-trivial: every item / sequence (distinct = hash of the item sequence).";
+const RULE: &str = "enumerated: every length in {0..300, 2^k +-2, 2^(7k) +-2, u64::MAX-2..u64::MAX}, every tag class x number 0..30, both booleans, every boolean content octet 0..255, i64/u64 boundary families through write_integer_*/read_integer_* and through BasicWriter/BasicReader with Integer<i8..u64>, Boolean, Enumerated with 1..300 items, non-extensible and extensible with half of the items behind the marker (every index) - each alone in a buffer; generated (proptest): sequences of 2..8 such items in one buffer read back from one slice. Non-trivial: every item / sequence (distinct = hash of the item sequence).";
 
 pub fn run(ctx: Ctx) -> i32 {
     let report = Report::new(ctx.clone(), RULE);
